@@ -442,6 +442,15 @@ func (ex *Exec) localByName(st *State, fr *Frame, name string) (Val, bool) {
 			}
 		}
 	}
+	// the variable was renamed since the contracts were written (specs/names.json): same position, same type
+	if now := ex.w.renamed(fr.fn, name); now != "" && now != name {
+		return ex.localByName(st, fr, now)
+	}
+	if ex.inInvariant {
+		if now := ex.w.uniqueByRecordedType(fr.fn, name); now != "" && now != name {
+			return ex.localByName(st, fr, now)
+		}
+	}
 	return Val{}, false
 }
 
